@@ -221,3 +221,32 @@ def big_worst_cases(rnd, size=131000):
     yield start(b'\x01a' + b'A' + struct.pack('>I', len(arr)) + arr), \
         'big-array-of-empty-strings'
     yield envelope(3, 1, rnd.randbytes(size)), 'big-body'
+
+
+def deep_fault_frames(rnd, depth):
+    """Nested tables where EVERY level holds the nested container first and
+    then a faulty entry (bad UTF-8 key, unknown tag, over-long length,
+    truncated value).  Work done before the fault is repeated by any decoder
+    that retries, re-parses or backtracks, so per-level mistakes multiply
+    with depth."""
+    faulty = {
+        'badkey': b'\x01\xffV',                       # key is not UTF-8
+        'badtag': b'\x01k\x07',                       # unknown type tag
+        'badstr': b'\x01kS\x00\x00\x00\x02\xff\xfe',   # non-UTF-8 long string
+        'longlen': b'\x01kS\x7f\xff\xff\xff',         # length beyond data
+        'shortkey': b'\x05k',                         # key length beyond data
+        'arrlen': b'\x01kA\x00\x00\x01\x00V',         # array length beyond data
+    }
+    for name, entry in faulty.items():
+        for order in ('nested-first', 'fault-first'):
+            v = b''
+            for i in range(depth):
+                nested = b'\x01n' + b'F' + struct.pack('>I', len(v)) + v
+                v = nested + entry if order == 'nested-first' \
+                    else entry + nested
+            table = struct.pack('>I', len(v)) + v
+            p = struct.pack('>HHBB', 10, 10, 0, 9) + table + \
+                struct.pack('>I', 0) + struct.pack('>I', 0)
+            yield envelope(1, 0, p), 'deep-fault:%s:%d' % (name, depth)
+            h = struct.pack('>HHQH', 60, 0, 0, 0x2000) + table
+            yield envelope(2, 1, h), 'deep-fault:%s:%d' % (name, depth)
